@@ -59,6 +59,7 @@ def plan(tier: str, seed: int) -> list[dict]:
                         cases.append({"family": fam, "angle": a, "batch": b, "cse": cse, "rep": rep, "cost": 0.2})
         cases.append({"family": "rest", "batch": 3, "cse": True, "rep": rep, "cost": 0.2})
         cases.append({"family": "rest", "batch": 1, "cse": False, "rep": rep, "cost": 0.2})
+        cases.append({"family": "explicit_history", "batch": 1, "cse": True, "rep": rep, "cost": 0.3})
     return cases
 
 
@@ -317,6 +318,33 @@ def _run_case(case, rec, ctx) -> None:
             t = 256 * EPS * gamma ** 2 * m * (1 + 1 / np.maximum(sint, 1e-300))
             ok = (np.abs(rest[:, 0] - m) <= t) & (np.abs(rest[:, 1:]).max(axis=1) <= t)
             rec.check(bool(ok.all()), "helicity_chain", f"Bz Ry(-theta) Rz(-phi) p != (m,0,0,0): {rest[np.argmin(ok)]}, m={m[np.argmin(ok)]}", w, feats)
+        return
+    if fam == "explicit_history":
+        # as_explicit() hands out a (mutable) SymPy matrix: a caller that edits its copy must not change what the next
+        # caller gets for an equal expression
+        import sympy as sp
+        from ampform.kinematics import lorentz as L
+        p_ = L.FourMomentumSymbol("p", shape=[])
+        ang_, b_ = sp.symbols("a b", real=True)
+        n_ = L.ArraySize(p_)
+        makers = {"BoostMatrix": lambda: L.BoostMatrix(p_), "BoostZMatrix": lambda: L.BoostZMatrix(b_, n_),
+                  "RotationYMatrix": lambda: L.RotationYMatrix(ang_, n_), "RotationZMatrix": lambda: L.RotationZMatrix(ang_, n_)}
+        rec.case(("explicit_history",), False, family="explicit_history")
+        for name, make in makers.items():
+            first = make().as_explicit()
+            pristine = sp.ImmutableDenseMatrix(first)
+            mutated = False
+            try:
+                first[0, 1] = 99
+                first[1, 1] = -first[1, 1]
+                mutated = True
+            except TypeError:
+                pass   # immutable result: nothing a caller could spoil
+            second = make().as_explicit()
+            rec.evaluation()
+            rec.check(sp.ImmutableDenseMatrix(second) == pristine, "explicit_shared_state",
+                      f"{name}.as_explicit() returns a different matrix after an earlier caller edited the matrix it had received (element [0,1] = {second[0, 1]})",
+                      {"mutated": mutated}, {"family": "explicit_history", "zero_three_momentum": False})
         return
     if fam == "rest":
         m = 10.0 ** rng.uniform(-3, 3, n)
